@@ -44,6 +44,10 @@ def run(chk, tier, scale=1.0):
                 chk.violation(Violation(p, rule, sig, text, wit))
     chk.require("burst_verdicts_at_quiescence", 500 * min(1.0, scale))
     chk.require("burst_runs_on_a_shared_socket", 3 * min(1.0, scale))
+    # the module interface no shipped module uses (set address / host name / user name, challenge, kill, accept, holds ...), driven
+    # through the fixture module site_api and compared line for line with a model of the core (lib/sitemodel.py)
+    import sitemodel
+    sitemodel.fold_site(chk, "C03", tier, scale, 1019, ('C03', 'crash'))
     chk.rule = ("bursts of 40-700 clients whose lines (a few bytes each) arrive in one write on the unhooked channel: when the daemon has drained its input and sleeps in "
                 "epoll_wait (read from /proc and the pipe), every one of them has its verdict - half of the bursts over ONE socket that is the daemon's standard input and output, with a reader who falls behind; "
                 "the C02 workload (all 120 arrival orders x service tables x reply policies x timeout / hurry-up positions x passwords) plus random multi-client "
@@ -66,6 +70,9 @@ def _burst_jobs(b, chk, tier, scale):
 
 
 def replay(chk, rep):
+    if rep["witness"].get("site"):
+        import sitemodel
+        return sitemodel.replay_site(chk, rep["witness"], "C03", ('C03', 'crash'))
     w = rep["witness"]
     if w.get("burst"):
         r = pcommon.burst_worker(dict(build=prun.build_daemon("c03-replay"), seed=w["seed"], n=w["n"], service=w["service"], after=w.get("after"), sock=w.get("sock")))
